@@ -263,6 +263,44 @@ pub fn run(ctx: &'static Ctx) {
     ctx.tr(nl.load(std::sync::atomic::Ordering::Relaxed));
     ctx.engine("E3.long-slices", json!({"slices": long.len(), "lengths": "6..300000 incl. 127..131, 255..258, 65535..65537", "patterns": 6, "start_states": 6}));
 
+    // ---- E3d: every slice length 0..=1100 and sub-slices at every start alignment 0..=16 of one buffer (an
+    // implementation that sums by machine words must handle head and tail bytes at every alignment)
+    {
+        let buf: Vec<u8> = (0..70_000usize).map(|i| (i as u8).wrapping_mul(37).wrapping_add((i >> 8) as u8) | 1).collect();
+        let lens: Vec<usize> = (0..=1100usize).chain([4090, 4095, 4096, 4097, 8191, 8192, 8193, 65_535, 65_536, 65_537]).collect();
+        let na = AtomicU64::new(0);
+        lens.par_iter().for_each(|len| {
+            let mut local = 0;
+            for off in 0..=16usize {
+                let sl = &buf[off..off + *len];
+                let want_sum = sl.iter().fold(0u8, |a, b| a.wrapping_add(*b));
+                for s in [0u8, 0x5a, 0xff] {
+                    let mut c = at(s);
+                    c.append(sl);
+                    local += 1;
+                    if c.raw_value() != s.wrapping_add(want_sum) {
+                        ctx.violation_sized("acc:aligned-slice:append", *len as u64, || format!("state {} append of buf[{}..{}] ({} bytes) -> raw {} expected {}", s, off, off + len, len, c.raw_value(), s.wrapping_add(want_sum)), || json!({"state": s, "op": "append", "offset": off, "slice_len": len}));
+                    }
+                    let mut d = at(s);
+                    d.delete(sl);
+                    local += 1;
+                    if d.raw_value() != s.wrapping_sub(want_sum) {
+                        ctx.violation_sized("acc:aligned-slice:delete", *len as u64, || format!("state {} delete of buf[{}..{}] ({} bytes) -> raw {} expected {}", s, off, off + len, len, d.raw_value(), s.wrapping_sub(want_sum)), || json!({"state": s, "op": "delete", "offset": off, "slice_len": len}));
+                    }
+                    let mut e = at(s);
+                    acpi_tables::AmlSink::vec(&mut e, sl);
+                    local += 1;
+                    if e.raw_value() != s.wrapping_add(want_sum) {
+                        ctx.violation_sized("acc:aligned-slice:sink-vec", *len as u64, || format!("state {} sink vec of buf[{}..{}] -> raw {} expected {}", s, off, off + len, e.raw_value(), s.wrapping_add(want_sum)), || json!({"state": s, "op": "vec", "offset": off, "slice_len": len}));
+                    }
+                }
+            }
+            na.fetch_add(local, std::sync::atomic::Ordering::Relaxed);
+        });
+        ctx.tr(na.load(std::sync::atomic::Ordering::Relaxed));
+        ctx.engine("E3.aligned-slices", json!({"lengths": "0..=1100, 4090..4097, 8191..8193, 65535..65537", "start_offsets": "0..=16 within one buffer", "start_states": 3, "calls": na.load(std::sync::atomic::Ordering::Relaxed)}));
+    }
+
     // ---- E1: stateright closure over the real object: exactly 256 states reachable, model agrees everywhere
     let acts: Vec<Act> = {
         let mut v = Vec::new();
